@@ -8,6 +8,35 @@ import os
 ROOT = os.path.dirname(os.path.dirname(os.path.abspath(__file__)))
 
 CHECKS = {
+    "C16": dict(
+        category="model_checking",
+        technique="explicit-state breadth-first search (C01 search, merge key extended by the shared handler list) over "
+                  "schemas with handler attributes on every subset of sites; on every accepted state the returned "
+                  "composite handler is exercised with all map variants and compared with the reference entry list",
+        text="Handler attributes on every subset of {schema, items of the container under test, wrapper slots, leaf "
+             "key} for <= 1 item (selected subsets for 2 items), placements 0-2, wrapping section datatypes.  Every "
+             "accepted node: len(handler); call sequence and delivered values (canonical equality with the reference "
+             "entry, and identity with an object of the returned tree for containers / sections) for the complete "
+             "map; the upper-cased map; each single name missing (configuration error, zero calls), mapped to None "
+             "(skipped, rest in order), duplicated in another letter case (configuration error, zero calls).",
+        note="Trusted: entry order of vz/ref/match.py.  Map keys that are not valid basic-keys are not generated "
+             "(statement silent).",
+        design="DESIGN.md section 3, C16", engine="E2 bfs"),
+    "C14": dict(
+        category="model_checking",
+        technique="deviation-bounded exhaustive exploration: for every accepted corpus text (seed) ALL override lists "
+                  "up to the length bound over a specifier alphabet derived from the seed's section tree, with a "
+                  "differential oracle (override load vs load of the text edited by the statement's rule) cross-checked "
+                  "against the reference conformance model",
+        text="Seeds: accepted texts with >= 1 section from the reference-model BFS over the schema family and two rich "
+             "3-level schemas.  Specifiers: every section by name / type / upper case to depth 3 x declared, absent, "
+             "unknown, wildcard-captured and key-type-refused keys x convertible, empty, unconvertible, '$', '$$' and "
+             "'=' values; absent sections; malformed specifiers.  All singles, all ordered pairs over an interacting "
+             "sub-alphabet (thorough: triples and quadruples).  Equal tree or both rejected; must-reject cases; "
+             "ConfigurationSyntaxError for malformed specifiers; DataConversionError for a single unconvertible value.",
+        note="Trusted: edit() in vz/props/c14.py, tree().  Override values restricted to strings the text syntax can "
+             "express (no leading/trailing blanks).",
+        design="DESIGN.md section 3, C14", engine="E3 deviate"),
     "C01": dict(
         category="model_checking",
         technique="explicit-state breadth-first search over the real loader/matcher transition function "
